@@ -203,6 +203,8 @@ c("c19c_archive_write_ignored", ["C19.c"], "archive_log ignores a failed archive
   [("src/engine/core/wal/wal_archiver.rs",
     "        let archive_path = archive.write_to_file(&self.archive_dir)?;",
     "        let archive_path = archive\n            .write_to_file(&self.archive_dir)\n            .unwrap_or_else(|_| self.archive_dir.join(\"failed\"));")])
+c("c20b_float_builder_drops_int", ["C20.b"], "batch.rs float cell builder loses its Int64 arm again",
+  [("src/engine/core/read/flow/batch.rs", "            ScalarValue::Float64(f) => builder.append_value(*f),\n            ScalarValue::Int64(i) => builder.append_value(*i as f64),\n", "            ScalarValue::Float64(f) => builder.append_value(*f),\n")])
 c("c20a_end_counts_seen", ["C20.a"], "stream_end announces a different counter than emitted",
   [("src/command/handlers/query/streaming/response_writer.rs",
     "        self.renderer.stream_end(self.emitted, &mut self.encode_buf);",
